@@ -17,6 +17,8 @@ DOC = {
         'C09.R3': 'visit_file: consumer called iff matches_full_path; matches_full_path = (names empty or any name matches) and (paths empty or any path matches) and no exclude matches; matches_dir = (paths empty or any partial match) and no exclude prefix-matches; names are not consulted for directories',
         'C09.R4': 'visited set consulted only under follow_links; hidden = file name starts with "."; .gitignore consulted unless no_ignore',
         'C09.R5': 'include/exclude path patterns are made absolute with abs_pattern(base_dir, _); name patterns are not',
+        'C09.R6': 'visit_dir reads a directory iff level < depth && matches_dir && (!one_fs || same_fs) (reach table over these atoms)',
+        'C09.R7': 'visit_link: the link itself is reported iff it resolves to a file and report_links; the target is visited iff follow_links && (!one_fs || same_fs(target)) and the link was not reported; nothing happens when neither follow_links nor report_links',
     },
     'not_decided': '.gitignore semantics (external crate); symlink resolution on a real file system; completeness of the parallel traversal; glob semantics (C16)',
     'assumptions': ['roots are passed to the walker at nesting 0'],
@@ -32,6 +34,7 @@ def run(ctx):
     r3(ctx)
     r4(ctx)
     r5(ctx)
+    r67(ctx)
 
 
 def r1(ctx):
@@ -401,3 +404,80 @@ def r5(ctx):
     gc = lib.body("group::GroupCtx::<'a>::new") or lib.body('group::GroupCtx::new')
     for b in lib.find(r'^group::GroupCtx::<.*>::new$|^group::GroupCtx.*::path_selector$|^config::GroupConfig::path_selector$'):
         ctx.fn(b)
+
+
+def r67(ctx):
+    lib = ctx.lib
+    rule = 'C09.R6'
+    b = lib.body(W + 'visit_dir')
+    if b is not None:
+        rd = b.calls(r'^std::fs::read_dir$')
+        md = b.calls(r'PathSelector::matches_dir$')
+        sf = b.calls(r"Walk::<'a>::same_fs$")
+        cmps = [c for c in comparisons(b) if 'depth' in (backslice(b, [c.a]).field_names() | backslice(b, [c.b]).field_names())]
+        if rd and md and sf and cmps:
+            atoms = {'deep': cmps[0].bb, 'matches_dir': md[0].bb, 'same_fs': sf[0].bb, 'one_fs': ('field', 'one_fs'), 'no_ignore': ('field', 'no_ignore')}
+            tt = truth_table(b, atoms, target_bb=rd[0].bb, field_owner='Walk')
+            # `deep` = the depth comparison as written (true = too deep after C09.R1 normalisation is checked separately)
+            br = branch_of(b, cmps[0])
+            deep_true_skips = br is not None and not b.dominates(br[1], rd[0].bb)
+            ok, why = table_equals(tt, lambda a: (not a['deep'] if deep_true_skips else a['deep']) and a['matches_dir'] and ((not a['one_fs']) or a['same_fs']))
+            ctx.check(ok, rule, b.path + '|read-condition', rd[0].where(), 'read_dir iff within depth && matches_dir && (!one_fs || same_fs)  [%s]' % why, 'the condition under which a directory is read differs: %s' % why)
+            # same_fs is asked about this directory and the root device
+            ok2 = 2 in backslice(b, [sf[0].args[1]]).params and 3 in backslice(b, [sf[0].args[2]]).params
+            ctx.check(ok2, rule, b.path + '|same_fs-args', sf[0].where(), 'same_fs(path, root device)', 'same_fs is asked about something else')
+        else:
+            ctx.missing(rule, 'read_dir / matches_dir / same_fs / depth comparison in visit_dir', b.where())
+    rule = 'C09.R7'
+    b = lib.body(W + 'visit_link')
+    if b is None:
+        ctx.missing(rule, 'fn visit_link')
+        return
+    ctx.fn(b)
+    rl = b.calls(r"Walk::<'a>::resolve_link$")
+    vf = b.calls(r"Walk::<'a>::visit_file$")
+    vp = b.calls(r"Walk::<'a>::visit_path$")
+    sf = b.calls(r"Walk::<'a>::same_fs$")
+    if not (rl and vf and vp and sf):
+        ctx.missing(rule, 'resolve_link / visit_file / visit_path / same_fs in visit_link', b.where())
+        return
+    # is the resolved entry a file?  atom = the switch on the EntryType discriminant: handled as "explore both ways", so the
+    # tables below are over the option flags and same_fs; both outcomes of the type test must be consistent with them
+    atoms = {'follow_links': ('field', 'follow_links'), 'report_links': ('field', 'report_links'), 'one_fs': ('field', 'one_fs'), 'same_fs': sf[0].bb}
+    t_res = truth_table(b, atoms, target_bb=rl[0].bb, field_owner='Walk')
+    ok, why = table_equals(t_res, lambda a: a['follow_links'] or a['report_links'])
+    ctx.check(ok, rule, b.path + '|resolve-condition', rl[0].where(), 'the link is resolved iff follow_links || report_links  [%s]' % why, 'link resolution condition differs: %s' % why)
+    # visit_file (report the link) requires report_links; visit_path (follow) requires follow_links && (!one_fs || same_fs)
+    def necessary(target, cond, what, key):
+        tt = truth_table(b, atoms, target_bb=target.bb, field_owner='Walk')
+        if tt is None:
+            ctx.violation(rule, key, target.where(), 'cannot fold the guard of %s' % what)
+            return
+        names, table = tt
+        bad = []
+        for k_, res in table.items():
+            a = dict(zip(names, k_))
+            reach = (res is True) or (isinstance(res, str) and 'True' in res)
+            try:
+                allowed = cond(a)
+            except TypeError:
+                allowed = True
+            if reach and not allowed:
+                bad.append({k: v for k, v in a.items() if v is not None})
+        ctx.check(not bad, rule, key, target.where(), '%s only under its documented condition' % what, '%s is reachable with %s' % (what, bad[:2]))
+
+    class A(dict):
+        def __getitem__(self, k):
+            v = dict.__getitem__(self, k)
+            if v is None:
+                raise TypeError(k)
+            return v
+    necessary(vf[0], lambda a: A(a)['report_links'], 'reporting the link itself (visit_file)', b.path + '|report-needs-report_links')
+    necessary(vp[0], lambda a: A(a)['follow_links'] and ((not A(a)['one_fs']) or A(a)['same_fs']), 'following the link (visit_path)', b.path + '|follow-needs-follow_links')
+    # the followed path is the resolved target, the reported path is the link itself; level is passed on unchanged (C09.R1)
+    tsl = backslice(b, [vp[0].args[1]])
+    ctx.check(rl[0] in tsl.calls, rule, b.path + '|follows-target', vp[0].where(), 'the followed path is the resolved target', 'the followed path is not the resolved target')
+    lsl = backslice(b, [vf[0].args[1]])
+    ctx.check(2 in lsl.params and rl[0] not in lsl.calls, rule, b.path + '|reports-link', vf[0].where(), 'the reported path is the link itself', 'the reported path is not the link')
+    # same_fs is asked about the target
+    ctx.check(rl[0] in backslice(b, [sf[0].args[1]]).calls, rule, b.path + '|same_fs-target', sf[0].where(), 'one_fs is decided on the link target', 'one_fs is not decided on the link target')
